@@ -36,6 +36,8 @@ pub enum TreeOp {
     Reset,
     ComputeRoot,
     Reopen,
+    /// close, then create a tree of ANOTHER depth at the same persistent location
+    Recreate(u64),
 }
 
 /// value codes: 0 = default leaf, 1 = a, 2 = b, 3 = c (only used as "a different value")
@@ -65,6 +67,7 @@ impl TreeOp {
             TreeOp::Reset => json!({"op":"Reset"}),
             TreeOp::ComputeRoot => json!({"op":"ComputeRoot"}),
             TreeOp::Reopen => json!({"op":"Reopen"}),
+            TreeOp::Recreate(d) => json!({"op":"Recreate","depth":d}),
         }
     }
     pub fn from_json(v: &Value) -> Option<TreeOp> {
@@ -84,6 +87,7 @@ impl TreeOp {
             "Reset" => TreeOp::Reset,
             "ComputeRoot" => TreeOp::ComputeRoot,
             "Reopen" => TreeOp::Reopen,
+            "Recreate" => TreeOp::Recreate(u("depth")?),
             _ => return None,
         })
     }
@@ -203,6 +207,10 @@ pub fn model_step(t: &IdealTree, op: &TreeOp) -> Expect {
         }
         TreeOp::Reset => Expect { ok: Some(IdealTree::new(t.depth)), err: vec![] },
         TreeOp::ComputeRoot | TreeOp::Reopen => Expect { ok: Some(same()), err: vec![] },
+        // What creating a tree of another depth over an existing location should do is not pinned by any
+        // property: refusing, or handing back the stored tree, keeps the model state; an implementation
+        // that really starts a fresh tree of the requested depth is judged separately (see `judge`)
+        TreeOp::Recreate(_) => Expect { ok: Some(same()), err: vec![same()] },
     }
 }
 
@@ -251,6 +259,10 @@ pub fn shape(pre: &IdealTree, op: &TreeOp) -> String {
             // from a removed one
             if (0..pre.hwm).any(|i| pre.is_written(i) && pre.leaf(i) == big(0)) { "reopen.default-valued-write-present".into() } else { "reopen".into() }
         }
+        TreeOp::Recreate(d) => {
+            let dv = if (0..pre.hwm).any(|i| pre.is_written(i) && pre.leaf(i) == big(0)) { ".default-valued-write-present" } else { "" };
+            format!("recreate.{}{}", if (*d as usize) > pre.depth { "deeper" } else if (*d as usize) < pre.depth { "shallower" } else { "same-depth" }, dv)
+        }
     }
 }
 
@@ -286,21 +298,33 @@ pub struct Obs {
 
 pub fn model_obs(t: &IdealTree, positions: &[u64], full: bool) -> Obs {
     let d = t.depth;
-    let mut o = Obs { root: t.root(), hwm: t.hwm, oob_get_is_err: true, positions: positions.to_vec(), ..Default::default() };
+    let dh = crate::refmodel::tree::default_hashes(d);
+    let mut cache = std::collections::HashMap::new();
+    let mut o = Obs { root: t.node_cached(0, 0, &dh, &mut cache), hwm: t.hwm, oob_get_is_err: true, positions: positions.to_vec(), ..Default::default() };
     o.leaves = positions.iter().map(|i| t.leaf(*i)).collect();
     if full {
         for l in 0..=d {
-            o.subtree.push((0..(1u64 << l)).map(|k| t.node(l, k)).collect());
+            o.subtree.push((0..(1u64 << l)).map(|k| t.node_cached(l, k, &dh, &mut cache)).collect());
         }
     } else {
         // sparse: for each position its ancestor at every level
         for l in 0..=d {
-            o.subtree.push(positions.iter().map(|i| t.node(l, i >> (d - l))).collect());
+            o.subtree.push(positions.iter().map(|i| t.node_cached(l, i >> (d - l), &dh, &mut cache)).collect());
         }
     }
     o.empty = t.empty_indices();
     for i in positions {
-        let (s, b) = t.path(*i);
+        let (s, b) = {
+            let mut sib = vec![];
+            let mut bits = vec![];
+            let mut idx = *i;
+            for level in (1..=d).rev() {
+                sib.push(t.node_cached(level, idx ^ 1, &dh, &mut cache));
+                bits.push((idx & 1) as u8);
+                idx >>= 1;
+            }
+            (sib, bits)
+        };
         o.proofs.push(ProofObs { elems: s, bits: b, leaf_index: Some(*i), length: Some(d), recomputed: Some(o.root.clone()), accepted: Some(true) });
     }
     o
@@ -352,6 +376,8 @@ impl Kind {
 pub trait Backend: Send + Sync {
     fn apply(&mut self, op: &TreeOp) -> Outcome;
     fn observe(&self, positions: &[u64], full: bool) -> Result<Obs, String>;
+    /// the depth the tree reports now (differs from the depth it was created with only after `Recreate`)
+    fn depth(&self) -> usize;
     fn boxed_clone(&self) -> Option<Box<dyn Backend>>;
     /// C07: alterations of the proof of `pos` that must not be accepted; returns descriptions of
     /// those that were accepted. `other_vals` are leaf values different from the stored one.
@@ -447,6 +473,25 @@ where
                 self.t = Some(nt);
                 return Ok(());
             }
+            TreeOp::Recreate(d2) => {
+                if self.path.is_none() {
+                    return Ok(());
+                }
+                e(self.t.as_mut().unwrap().close_db_connection())?;
+                self.t = None;
+                match (self.mk)(*d2 as usize, &self.path) {
+                    Ok(nt) => {
+                        self.depth = nt.depth();
+                        self.t = Some(nt);
+                        return Ok(());
+                    }
+                    Err(err) => {
+                        // refused: carry on with the stored tree
+                        self.t = Some((self.mk)(self.depth, &self.path)?);
+                        return Err(err);
+                    }
+                }
+            }
             _ => {}
         }
         let t = self.t.as_mut().expect("tree present");
@@ -461,7 +506,7 @@ where
                 rem.iter().map(|r| *r as usize).collect::<Vec<_>>().into_iter(),
             )),
             TreeOp::ComputeRoot => t.compute_root().map(|_| ()).map_err(|e| e.to_string()),
-            TreeOp::Init(_) | TreeOp::Reset | TreeOp::Reopen => unreachable!(),
+            TreeOp::Init(_) | TreeOp::Reset | TreeOp::Reopen | TreeOp::Recreate(_) => unreachable!(),
         }
     }
     fn reset(&mut self) -> Result<(), String> {
@@ -481,7 +526,7 @@ where
     T::Proof: Surgery + ZerokitMerkleProof<Index = u8, Hasher = T::Hasher>,
 {
     fn apply(&mut self, op: &TreeOp) -> Outcome {
-        if matches!(op, TreeOp::Reopen) && self.path.is_none() {
+        if matches!(op, TreeOp::Reopen | TreeOp::Recreate(_)) && self.path.is_none() {
             return Outcome::NotApplicable;
         }
         match guard(|| self.do_apply(op)) {
@@ -489,6 +534,9 @@ where
             Ok(Err(e)) => Outcome::Err(e),
             Err(p) => Outcome::Panic(p),
         }
+    }
+    fn depth(&self) -> usize {
+        self.depth
     }
     fn observe(&self, positions: &[u64], full: bool) -> Result<Obs, String> {
         guard(|| {
@@ -651,7 +699,7 @@ impl Backend for RlnBackend {
                 }
                 TreeOp::Init(vs) => e(rln.init_tree_with_leaves(rd(vals(vs)))),
                 TreeOp::Reset => e(rln.set_tree(depth)),
-                TreeOp::ComputeRoot | TreeOp::Reopen => Ok(None),
+                TreeOp::ComputeRoot | TreeOp::Reopen | TreeOp::Recreate(_) => Ok(None),
             }
         });
         match r {
@@ -660,6 +708,9 @@ impl Backend for RlnBackend {
             Ok(Err(e)) => Outcome::Err(e),
             Err(p) => Outcome::Panic(p),
         }
+    }
+    fn depth(&self) -> usize {
+        self.depth
     }
     fn observe(&self, positions: &[u64], full: bool) -> Result<Obs, String> {
         // leaves_set takes &mut self in the public API, hence the lock
@@ -756,7 +807,7 @@ impl Focus {
     /// does this property judge transitions made by `op`?
     fn owns_op(&self, op: &TreeOp) -> bool {
         match self {
-            Focus::C06 => !op.is_batch() && !matches!(op, TreeOp::Reopen | TreeOp::ComputeRoot),
+            Focus::C06 => !op.is_batch() && !matches!(op, TreeOp::Reopen | TreeOp::ComputeRoot | TreeOp::Recreate(_)),
             Focus::C07 => true,
             Focus::C08 => op.is_batch(),
             Focus::C15 => true,
@@ -858,6 +909,40 @@ pub fn judge(c: &CaseCtx, pre: &IdealTree, op: &TreeOp, outcome: &Outcome, be: &
             all.push(("panic".into(), format!("panicked: {m}")));
         }
         Outcome::NotApplicable => unreachable!(),
+        Outcome::Ok if matches!(op, TreeOp::Recreate(_)) && be.depth() != c.depth => {
+            // the implementation started over with another depth: whatever it holds now must be a
+            // consistent FRESH tree of the depth it reports; the history ends here
+            oc = "ok-new-depth".to_string();
+            let nd = be.depth();
+            let asked = match op { TreeOp::Recreate(d) => *d as usize, _ => 0 };
+            if nd != asked {
+                all.push(("wrong-result".into(), format!("the tree reports depth {nd}: neither the stored depth {} nor the requested depth {asked}", c.depth)));
+            } else if nd > 12 {
+                all.push(("wrong-result".into(), format!("unexpected depth {nd}")));
+            } else {
+                let positions: Vec<u64> = (0..(1u64 << nd)).collect();
+                match be.observe(&positions, true) {
+                    Err(pn) => all.push(("panic".into(), format!("panicked while reading the state: {pn}"))),
+                    Ok(got) => {
+                        let want = model_obs(&IdealTree::new(nd), &positions, true);
+                        for (s, d) in diff(&want, &got) {
+                            all.push((s.to_string(), format!("fresh tree of depth {nd} expected after re-creation; {d}")));
+                        }
+                        // proofs are judged on their own as well (they must fold to the root the tree reports,
+                        // whatever the state is): a state symptom must not hide them here
+                        let broken = got.proofs.iter().position(|p| p.recomputed.as_ref() != Some(&got.root) || p.accepted != Some(true));
+                        if let Some(k) = broken {
+                            if c.focus == Focus::C07 {
+                                all.retain(|(s, _)| s == "wrong-proof");
+                                if all.is_empty() {
+                                    all.push(("wrong-proof".into(), format!("after re-creation at depth {nd} the proof of position {k} does not fold to the root the tree reports")));
+                                }
+                            }
+                        }
+                    }
+                }
+            }
+        }
         Outcome::Ok | Outcome::Err(_) => {
             let is_ok = matches!(outcome, Outcome::Ok);
             oc = if is_ok { "ok".to_string() } else { "err".to_string() };
@@ -1461,9 +1546,21 @@ impl TreeProp {
             Focus::C15 => (true, true),
         };
         let extra: Vec<TreeOp> = if f == Focus::C15 { vec![TreeOp::ComputeRoot, TreeOp::Reopen] } else { vec![] };
+        // persistent backend: a tree of another depth created over the same location (C07: proofs stay
+        // consistent with the root reported; C15: the empty list)
+        let extra_at = |d: usize| -> Vec<TreeOp> {
+            let mut e = extra.clone();
+            if matches!(f, Focus::C07 | Focus::C15) {
+                e.push(TreeOp::Recreate(d as u64 + 1));
+                if d > 1 {
+                    e.push(TreeOp::Recreate(d as u64 - 1));
+                }
+            }
+            e
+        };
         // depth 1: two non-default values, every backend; in-memory backends to the fixpoint
         {
-            let ops = alphabet(1, &[1, 2], with_batch, with_plain, &extra);
+            let ops = alphabet(1, &[1, 2], with_batch, with_plain, &extra_at(1));
             let pl = if q { 2 } else { 12 };
             plans.push(ExploreCfg {
                 focus: f, depth: 1, ops,
@@ -1473,7 +1570,7 @@ impl TreeProp {
         }
         // depth 2: two non-default values
         {
-            let ops = alphabet(2, &[1, 2], with_batch, with_plain, &extra);
+            let ops = alphabet(2, &[1, 2], with_batch, with_plain, &extra_at(2));
             let pl = if q { 1 } else { 3 };
             plans.push(ExploreCfg {
                 focus: f, depth: 2, ops,
@@ -1513,7 +1610,7 @@ impl TreeProp {
                 ops.push(TreeOp::Init(vec![1, 2]));
                 ops.push(TreeOp::Init(vec![]));
             }
-            ops.extend_from_slice(&extra);
+            ops.extend_from_slice(&extra_at(2));
             let mut seen = BTreeSet::new();
             ops.retain(|o| seen.insert(o.clone()));
             plans.push(ExploreCfg {
@@ -1523,7 +1620,7 @@ impl TreeProp {
             });
         }
         // depth 3: one non-default value to a deeper bound, two values to a shallower one
-        let ops3a = alphabet(3, &[1], with_batch, with_plain, &extra);
+        let ops3a = alphabet(3, &[1], with_batch, with_plain, &extra_at(3));
         plans.push(ExploreCfg {
             focus: f, depth: 3, ops: ops3a,
             backends: vec![(Kind::Full, 12), (Kind::Optimal, 12), (Kind::Pm, if q { 1 } else { 2 }), (Kind::Rln, if q { 1 } else { 2 })],
